@@ -35,6 +35,9 @@ theorem Ty.beq_eq : ∀ (a b : Ty), Ty.beq a b = true → a = b
   | .vec a, b, h => by
     cases b <;> simp [Ty.beq] at h ⊢
     exact Ty.beq_eq a _ h
+  | .arr n a, b, h => by
+    cases b <;> simp [Ty.beq] at h ⊢
+    exact ⟨h.1, Ty.beq_eq a _ h.2⟩
 theorem Ty.beqList_eq : ∀ (as bs : List Ty), Ty.beqList as bs = true → as = bs
   | [], bs, h => by cases bs <;> simp [Ty.beqList] at h ⊢
   | a :: as, bs, h => by
@@ -45,23 +48,43 @@ theorem Ty.beqList_eq : ∀ (as bs : List Ty), Ty.beqList as bs = true → as = 
       exact ⟨Ty.beq_eq a b h.1, Ty.beqList_eq as bs h.2⟩
 end
 
+theorem hasTyAll_list : ∀ (vs : List View) (t : Ty), hasTyAll vs t = true →
+    hasTyList vs (List.replicate vs.length t) = true
+  | [], _, _ => by simp [hasTyList]
+  | v :: vs, t, h => by
+    simp [hasTyAll] at h
+    simp [List.replicate_succ, hasTyList, h.1, hasTyAll_list vs t h.2]
+
+theorem wfList_replicate : ∀ (n : Nat) (t : Ty), t.wf = true → Ty.wfList (List.replicate n t) = true
+  | 0, _, _ => by simp [Ty.wfList]
+  | n + 1, t, h => by simp [List.replicate_succ, Ty.wfList, h, wfList_replicate n t h]
+
+theorem nodefulAll_get : ∀ (ts : List Ty) (i : Nat) (t : Ty), Ty.nodefulAll ts = true →
+    ts[i]? = some t → t.nodeful = true
+  | [], i, t, _, h => by simp at h
+  | t0 :: ts, 0, t, hw, h => by
+    simp at h; subst h; simp [Ty.nodefulAll] at hw; exact hw.1
+  | t0 :: ts, i + 1, t, hw, h => by
+    simp at h; simp [Ty.nodefulAll] at hw; exact nodefulAll_get ts i t hw.2 h
+
 mutual
-/-- a mounted state of a well-formed type has at least one root node -/
+/-- a mounted state of a well-formed `nodeful` type has at least one root node -/
 theorem roots_ne_nil {d : Dom} : ∀ (a : View) (ty : Ty) (st : State) (par : Option Id),
-    ty.wf = true → hasTy a ty = true → Rep R d a st par → st.roots ≠ []
-  | .text _, ty, st, par, _, _, h => by cases st <;> simp [Rep, State.roots] at h ⊢
-  | .unit, ty, st, par, _, _, h => by cases st <;> simp [Rep, State.roots] at h ⊢
-  | .elem _ _ _, ty, st, par, _, _, h => by cases st <;> simp [Rep, State.roots] at h ⊢
-  | .onone, ty, st, par, _, _, h => by
+    ty.wf = true → ty.nodeful = true → hasTy a ty = true → Rep R d a st par → st.roots ≠ []
+  | .text _, ty, st, par, _, _, _, h => by cases st <;> simp [Rep, State.roots] at h ⊢
+  | .unit, ty, st, par, _, _, _, h => by cases st <;> simp [Rep, State.roots] at h ⊢
+  | .elem _ _ _, ty, st, par, _, _, _, h => by cases st <;> simp [Rep, State.roots] at h ⊢
+  | .onone, ty, st, par, _, _, _, h => by
     cases st <;> simp only [Rep] at h
     obtain ⟨_, id, rfl, _⟩ := h; simp [State.roots]
-  | .vec _, ty, st, par, _, _, h => by cases st <;> simp [Rep, State.roots] at h ⊢
-  | .osome v, ty, st, par, hw, ht, h => by
+  | .vec _, ty, st, par, _, _, _, h => by cases st <;> simp [Rep, State.roots] at h ⊢
+  | .osome v, ty, st, par, hw, hn, ht, h => by
     cases ty <;> simp [hasTy] at ht
     cases st <;> simp only [Rep] at h
     simp only [State.roots]
-    exact roots_ne_nil v _ _ par (by simpa [Ty.wf] using hw) ht h.2
-  | .either n i v, ty, st, par, hw, ht, h => by
+    simp [Ty.wf] at hw
+    exact roots_ne_nil v _ _ par hw.1 hw.2 ht h.2
+  | .either n i v, ty, st, par, hw, hn, ht, h => by
     cases ty <;> simp [hasTy] at ht
     rename_i ts
     cases st <;> simp only [Rep] at h
@@ -71,24 +94,31 @@ theorem roots_ne_nil {d : Dom} : ∀ (a : View) (ty : Ty) (st : State) (par : Op
     | some t =>
       simp [hi] at ht
       simp [Ty.wf] at hw
-      exact roots_ne_nil v t _ par (wfList_get ts i t hw.2 hi) ht.2 h.2
-  | .any tyv v, ty, st, par, hw, ht, h => by
+      exact roots_ne_nil v t _ par (wfList_get ts i t hw.1.2 hi) (nodefulAll_get ts i t hw.2 hi) ht.2 h.2
+  | .any tyv v, ty, st, par, hw, hn, ht, h => by
     cases ty <;> simp [hasTy] at ht
     cases st <;> simp only [Rep] at h
     simp only [State.roots]
-    exact roots_ne_nil v tyv _ par ht.1 ht.2 h.2
-  | .tuple vs, ty, st, par, hw, ht, h => by
+    exact roots_ne_nil v tyv _ par ht.1.1 ht.1.2 ht.2 h.2
+  | .tuple vs, ty, st, par, hw, hn, ht, h => by
     cases ty <;> simp [hasTy] at ht
-    rename_i ts
-    cases st <;> simp only [Rep] at h
-    simp only [State.roots]
-    simp [Ty.wf] at hw
-    exact rootsList_ne_nil vs ts _ par hw.2 ht hw.1 h
+    · rename_i ts
+      cases st <;> simp only [Rep] at h
+      simp only [State.roots]
+      simp [Ty.wf] at hw
+      simp only [Ty.nodeful] at hn
+      exact rootsList_ne_nil vs ts _ par hw.2 hn ht h
+    · rename_i n t
+      cases st <;> simp only [Rep] at h
+      simp only [State.roots]
+      simp [Ty.wf] at hw
+      simp [Ty.nodeful] at hn
+      exact rootsAll_ne_nil vs t _ par hw hn.2 ht.2 (by omega) h
 theorem rootsList_ne_nil {d : Dom} : ∀ (as : List View) (ts : List Ty) (sts : List State)
-    (par : Option Id), Ty.wfList ts = true → hasTyList as ts = true → ts ≠ [] →
+    (par : Option Id), Ty.wfList ts = true → Ty.nodefulAny ts = true → hasTyList as ts = true →
     RepList R d as sts par → State.rootsList sts ≠ []
-  | [], ts, sts, par, _, ht, hne, _ => by cases ts <;> simp [hasTyList] at ht hne
-  | v :: vs, ts, sts, par, hw, ht, _, h => by
+  | [], ts, sts, par, _, hn, ht, _ => by cases ts <;> simp [hasTyList, Ty.nodefulAny] at ht hn
+  | v :: vs, ts, sts, par, hw, hn, ht, h => by
     cases ts with
     | nil => simp [hasTyList] at ht
     | cons t ts =>
@@ -97,8 +127,24 @@ theorem rootsList_ne_nil {d : Dom} : ∀ (as : List View) (ts : List Ty) (sts : 
       | cons s ss =>
         simp [hasTyList] at ht; simp [Ty.wfList] at hw; simp only [RepList] at h
         simp only [State.rootsList]
-        have := roots_ne_nil v t s par hw.1 ht.1 h.1
-        intro e; simp at e; exact this e.1
+        simp [Ty.nodefulAny] at hn
+        rcases hn with hn | hn
+        · have := roots_ne_nil v t s par hw.1 hn ht.1 h.1
+          intro e; simp at e; exact this e.1
+        · have := rootsList_ne_nil vs ts ss par hw.2 hn ht.2 h.2
+          intro e; simp at e; exact this e.2
+theorem rootsAll_ne_nil {d : Dom} : ∀ (as : List View) (t : Ty) (sts : List State)
+    (par : Option Id), t.wf = true → t.nodeful = true → hasTyAll as t = true → 1 ≤ as.length →
+    RepList R d as sts par → State.rootsList sts ≠ []
+  | [], t, sts, par, _, _, _, hl, _ => by simp at hl
+  | v :: vs, t, sts, par, hw, hn, ht, _, h => by
+    cases sts with
+    | nil => simp [RepList] at h
+    | cons s ss =>
+      simp [hasTyAll] at ht; simp only [RepList] at h
+      simp only [State.rootsList]
+      have := roots_ne_nil v t s par hw hn ht.1 h.1
+      intro e; simp at e; exact this e.1
 end
 
 /-- what rebuilding attribute values `as` into `bs` must achieve on the element (semantic
